@@ -1249,6 +1249,9 @@ func (x *Exec) verifyContract(ct *Contract) (err error) {
 		fmt.Printf("enter %s specMode=%d dry=%d\n", ct.label(), x.specMode, x.dry)
 	}
 	x.specMode, x.dry = 0, 0 // never inherited from an earlier contract of the run
+	for _, a := range ct.assumes {
+		x.note("hypothesis of " + ct.label() + " (assumed, not proved): " + a)
+	}
 	x.cur = ct
 	// symbolic execution of one contract has a time budget: changed code under annotations that
 	// no longer fit it (a loop that lost its invariant) can otherwise unroll without end
